@@ -1700,6 +1700,29 @@ def pattern_methods(rng):
         for b in CONSTRUCTS:
             add("PC", "I", P2, [init] + _pat_construct(a, [_acc()], 0) + _pat_construct(b, [_acc(_c(2))], 1, sel=("var", "p1")) + [("return", x0)],
                 "seq:%s;%s" % (a, b), "seq")
+    # ---- PC: conditions that are chains of FOUR and FIVE tests (merged step by step into one short-circuit condition), as the test of an if and as
+    # the top / bottom test of every loop kind
+    cA = ("cmp", "lt", "I", ("var", "k0"), _c(3), False)      # the guard that ends the loops comes first / is a conjunct at the top level
+    pool5 = [("cmp", "gt", "I", ("var", "p0"), _c(0), True), ("cmp", "ne", "I", ("var", "p1"), _c(0), True),
+             ("cmp", "lt", "I", ("var", "p0"), ("var", "p1"), False), ("cmp", "ge", "I", x0, ("var", "p1"), False)]
+
+    def chain(op, cs, assoc):
+        if len(cs) == 1:
+            return cs[0]
+        return (op, chain(op, cs[:-1], assoc), cs[-1]) if assoc == "left" else (op, cs[0], chain(op, cs[1:], assoc))
+    inc0 = ("assign", "k0", ("bin", "add", "I", ("var", "k0"), 1, "lit8"))
+    for n in (4, 5):
+        for assoc in ("left", "right"):
+            cnd = chain("and", [cA] + pool5[:n - 1], assoc)
+            mixed = ("and", cA, chain("or", pool5[:n - 1], assoc))
+            for nm, cc_ in (("and", cnd), ("and-of-or", mixed)):
+                for kind in ("do-while", "while-bottom", "while-top"):
+                    loop = ("dowhile", [_acc(), inc0], cc_) if kind == "do-while" else ("while", cc_, [_acc(), inc0], kind.split("-")[1])
+                    add("PC", "I", P2, [init, ("assign", "k0", _c(0)), loop, ("return", x0)], "cond-chain:%s:%d-tests" % (kind, n), "%s/%s" % (nm, assoc))
+            for op in ("and", "or"):
+                cnd = chain(op, pool5[:n] if n == 4 else pool5 + [("cmp", "le", "I", x0, _c(50), False)], assoc)
+                add("PC", "I", P2, [init, ("if", cnd, [_acc()], [post]), ("return", x0)], "cond-chain:if:%d-tests" % n, "%s/%s" % (op, assoc))
+                add("PC", "I", P2, [init, ("if", cnd, [_acc()], []), ("return", x0)], "cond-chain:if:%d-tests" % n, "%s/%s/no-else" % (op, assoc))
     # ---- PS: switch shapes
     for kind in ("packed", "sparse"):
         keys = [0, 1, 2, 3] if kind == "packed" else [-100, 0, 7, 1000]
